@@ -52,15 +52,19 @@ class Tracker:
     def _memo(u, prev):
         try:
             c = object.__getattribute__(u, "_cache")
-        except AttributeError:
+            items = list(c.items())
+        except Exception:  # noqa -- no memo dict (refactored away): M2 degrades, M1 and the oracle remain
             return None
         out = {}
-        for k, v in list(c.items()):
+        for k, v in items:
             p = prev.get(k) if prev else None
             if p is not None and p[0] is v and not _mutable(v):
                 out[k] = p
             else:
-                out[k] = (v, _mrepr(v))
+                try:
+                    out[k] = (v, _mrepr(v))
+                except Exception as e:  # noqa
+                    out[k] = (v, "<unrenderable %s>" % type(e).__name__)
         return out
 
     def check_fast(self):
@@ -73,7 +77,8 @@ class Tracker:
                 continue
             try:
                 c = object.__getattribute__(ent[1], "_cache")
-            except AttributeError:
+                c.get
+            except Exception:  # noqa
                 continue
             for k, pr in memo.items():
                 cur = c.get(k, _MISSING)
